@@ -69,7 +69,7 @@ PRELUDE_PLAIN = """\
 import enum
 from dataclasses import dataclass, field
 from pathlib import Path
-from typing import Any, Literal, Optional, Union, Tuple, NewType, Sequence, Mapping, FrozenSet, List, Dict, Set
+from typing import Any, ClassVar, Literal, Optional, Union, Tuple, NewType, Sequence, Mapping, FrozenSet, List, Dict, Set
 from pyoak.node import ASTNode
 from pyoak.origin import Origin
 """
@@ -203,6 +203,14 @@ class {P}Color(enum.Enum):
     RED = 1
     GREEN = "g"
     BLUE = 3
+
+
+class _{P}Tag:
+    # a plain marker mixin (no data, not a node)
+    __slots__ = ()
+
+    def mixin_marker(self):
+        return type(self).__name__
 """
 
 
@@ -348,6 +356,14 @@ def core_specs(P: str = "U", variant: int = 0) -> list[CS]:
                 FS("Zed", "child", f"{E} | None", "opt", (E,), default="None"),
             ),
         ),
+        CS(
+            f"{P}Var",
+            (E,),
+            F(FS("v", "prop", "int", "int", default="0"), FS("kid", "child", f"{E} | None", "opt", (E,), kw_only=True, default="None")),
+            body='    kind: ClassVar[str] = "var"\n    registry_hint: ClassVar[tuple] = ()\n',
+        ),
+        CS(f"{P}Tagged", (f"_{P}Tag", f"{P}Leaf"), []),  # a plain (non-node) mixin first in the bases
+        CS(f"{P}Name2", (f"{P}Name",), F(FS("alias", "prop", "str", "str", default='""'))),  # 4 levels: Expr > Leaf > Name > Name2
         CS(f"{P}Left", (E,), F(FS("l", "child", f"{E} | None", "opt", (E,), default="None"), FS("lv", "prop", "int", "int", default="0"))),
         CS(f"{P}Right", (E,), F(FS("r", "child", f"{E} | None", "opt", (E,), default="None"), FS("rv", "prop", "int", "int", default="0"))),
         CS(f"{P}Both", (f"{P}Left", f"{P}Right"), []),
